@@ -814,7 +814,22 @@ class QvmCpu:
                       expected=a.type,
                       got=b.type)
 
-        result = a.value ** b.value
+        try:
+            if a.type.is_integral:
+                # do not build an astronomically large integer just
+                # to find out that it does not fit
+                approx = float(a.value) ** float(b.value)
+                if abs(approx) > 2.0 ** 32:
+                    raise OverflowError
+            result = a.value ** b.value
+        except OverflowError:
+            self.trap(TrapCode.INVALID_CELL_VALUE,
+                      type=a.type, value='(overflow)')
+        if isinstance(result, complex):
+            self.trap(TrapCode.INVALID_OPERAND_VALUE,
+                      desc='negative base with a fractional exponent')
+        if a.type.is_integral and isinstance(result, float):
+            result = round(result)
         self.push(a.type, result)
 
     def _exec_frame(self, params_size, local_vars_size):
